@@ -45,7 +45,7 @@ var propMix = map[string][]mixEntry{
 	"C07": {{"mixed", "", 4}, {"long", "", 2}, {"reward", "", 1}, {"capacity", "", 1}},
 	"C08": {{"reward", "", 5}, {"mixed", "", 2}, {"long", "", 1}, {"capacity", "", 1}},
 	"C09": {{"authz", "", 6}, {"mixed", "", 2}},
-	"C10": {{"authz", "", 6}, {"mixed", "", 2}},
+	"C10": {{"authz", "", 6}, {"mixed", "", 2}, {"did", "", 2}},
 	"C11": {{"long", "", 3}, {"longer", "", 1}},
 	"C12": {{"timeout", "", 6}, {"mixed", "", 2}},
 	"C13": {{"mixed", "", 6}, {"timeout", "", 2}, {"long", "", 1}},
